@@ -24,7 +24,7 @@ TInit == /\ l = 1 /\ cfg = <<>> /\ deck = <<>> /\ turn = 0 /\ river = 0 /\ idx =
 TNew == /\ l <= Len(Rec) /\ Ev.op = "new" /\ st \in {"idle", "exhausted"}
         /\ cfg' = Ev /\ deck' = P!DeckOf(Ev.flop) /\ turn' = Ev.from[1] /\ river' = Ev.from[2]
         /\ idx' = [k \in 1..Len(Ev.ranges) |-> 1] /\ depth' = 0 /\ st' = "running" /\ gpos' = Ev.from /\ gseen' = {}
-        /\ l' = l + 1
+        /\ l' = l + 1 /\ TLCSet(1, l + 1)
 \* silent: the ticks that skip blocked deals inside one next() call
 TSkip == st = "running" /\ l <= Len(Rec) /\ Ev.op \in {"next", "none"} /\ TickSkip /\ UNCHANGED l
 \* a logged next() that returned a showdown: the model's emit, with the same deal, ending in the logged state
